@@ -49,7 +49,7 @@ def run(tier, seed):
                        "tags and case / successor indices are within range (negative indices keep Python's meaning and are not claimed)"]
     # the graph-level wrappers: the kind / type of a port of a node is the one its operation reports
     base_files = [os.path.join(VERIF, "contracts", f) for f in ("node_port.py", "utils.py", "base.py", "base_ports.py")]
-    standard_flow(res, FILES, targets(), None, bounded_modules=[("bounded.c06", 120, 600)],
+    standard_flow(res, FILES, targets(), None, bounded_modules=[("bounded.c06", 900, 600)],
                   more=[(base_files, ["hugr.hugr.base.Hugr.port_kind", "hugr.hugr.base.Hugr.port_type"]),
                         ([os.path.join(VERIF, "contracts", f) for f in ("node_port.py", "tys.py", "ops.py", "val.py", "std_ops.py")],
                          ["hugr.std.int._DivModDef.cached_signature", "hugr.std.int._DivModDef.type_args"])])
